@@ -104,6 +104,8 @@ class Subject(object):
         self.key.userids[0] |= third.certify(self.key.userids[0], created=K.ts(K.T0 + 40))
         self.key.userids[0] |= third.certify(self.key.userids[0], exportable=False, created=K.ts(K.T0 + 41))
         self.clear_blob = bytes(self.key)
+        self.start_blob = self.clear_blob
+        self.init = None
         self.secrets = secret_ints(self.clear_blob)
         self.pub0 = pgpy.PGPKey.from_blob(bytes(self.key.pubkey))[0]
         self.fingerprints = [str(self.key.fingerprint)] + [str(s.fingerprint) for s in self.key.subkeys.values()]
@@ -119,7 +121,21 @@ class Subject(object):
         self.other = third
 
     def fresh(self):
-        return self.pgpy.PGPKey.from_blob(self.clear_blob)[0]
+        return self.pgpy.PGPKey.from_blob(self.start_blob)[0]
+
+    def make_split(self):
+        """the same key with its components under DIFFERENT passphrases (primary p1, subkeys a third one), as GnuPG >= 2.1 can export
+        them: no single passphrase unlocks it, so in KeyProtect's terms it starts locked under a passphrase nobody offers."""
+        from pgpy.constants import SymmetricKeyAlgorithm, HashAlgorithm
+        k = self.pgpy.PGPKey.from_blob(self.clear_blob)[0]
+        k.protect(PW['p1'], SymmetricKeyAlgorithm.AES128, HashAlgorithm.SHA256)
+        with k.unlock(PW['p1']):
+            for sk in k.subkeys.values():
+                sk.protect('a third passphrase, for the subkeys only', SymmetricKeyAlgorithm.AES128, HashAlgorithm.SHA256)
+        self.start_blob = bytes(k)
+        self.init = {'prot': 'locked', 'pw': 'split'}
+        self.alg = self.alg + '-split-passphrases'
+        return self
 
     def meta(self):
         bodies = []
@@ -129,8 +145,11 @@ class Subject(object):
         pre = [b'\x99' + struct.pack('>H', len(b)) + b for b in bodies]
         digs = [hashlib.sha1(p).digest() for p in pre]
         comps = [self.key] + list(self.key.subkeys.values())
-        return {'alg': self.alg, 'fingerprints': self.fingerprints, 'preimages': [octets(p) for p in pre], 'digests': [octets(d) for d in digs],
-                'fpr_octets': [octets(bytes.fromhex(str(c.fingerprint))) for c in comps], 'keyids': [octets(bytes.fromhex(c.fingerprint.keyid)) for c in comps]}
+        m = {'alg': self.alg, 'fingerprints': self.fingerprints, 'preimages': [octets(p) for p in pre], 'digests': [octets(d) for d in digs],
+             'fpr_octets': [octets(bytes.fromhex(str(c.fingerprint))) for c in comps], 'keyids': [octets(bytes.fromhex(c.fingerprint.keyid)) for c in comps]}
+        if self.init:
+            m['init'] = self.init
+        return m
 
     # ---- observation after a step
     def observe(self, key, with_reimport=False, current_pw=None):
@@ -315,7 +334,7 @@ def generate(ctx, focus):
     behs = sorted({tuple(tuple(s) for s in p[1]) for p in g.prints if isinstance(p, list) and p and p[0] == 'BEH'})
     if len(behs) < 2000:
         raise MachineryError('Gen_KeyProtect produced %d behaviours' % len(behs))
-    kinds = [('ed25519', ['cv25519', 'ed25519']), ('rsa2048', ['rsa2048']), ('p256', ['ecdh256']), ('foreign-ecdh-kdf', [])]
+    kinds = [('ed25519', ['cv25519', 'ed25519']), ('rsa2048', ['rsa2048']), ('p256', ['ecdh256']), ('foreign-ecdh-kdf', []), ('ed25519+split', ['cv25519'])]
     if not ctx.quick:
         kinds += [('dsa1024', ['rsa2048']), ('p384', ['ecdh384']), ('rsa3072', ['cv25519']), ('k256', ['ed25519'])]
     traces = []
@@ -323,7 +342,9 @@ def generate(ctx, focus):
     try:
         for ki, (alg, subs) in enumerate(kinds):
             try:
-                S = Subject(alg, subs)
+                S = Subject(alg.replace('+split', ''), subs)
+                if alg.endswith('+split'):
+                    S.make_split()
             except Exception as ex:
                 ctx.note('key kind %s unavailable: %s' % (alg, repr(ex)[:100]))
                 continue
